@@ -178,6 +178,33 @@ def view (h : HomScope α τ) : View α := ⟨h.size, h.get⟩
 def type (h : HomScope α τ) : View τ := h.decls.view
 end HomScope
 
+/-! ## Look-up by name
+
+`homogeneous_scope::operator[](const Name&)` (impl:669-677) is a linear search over the members in order, comparing
+`member.name()` with the name asked for.  `name()` of a member may itself raise — `ipr::Base_type::name()` is the name of the
+base class, `Udt::name()` is `id.get()` on an Optional that is empty for a class without a name (yet) — and then the search
+ends there with that logic error; members in front of it are still found.  The overload set found is the member's
+`singleton_overload` (impl:589-604): `type()` is the member's type, `operator[](t)` the member iff `t` is its type.
+`impl::Scope::operator[]` (src/impl.cxx:1487-1492) searches a tree keyed by the name's address: no member is asked for its
+name; the overload set is keyed by type and answers the FIRST declaration made with that name and type. -/
+
+/-- Linear search: index of the first member named `q`; a member whose name cannot be read ends the search with its error. -/
+def lookupFrom {ν : Type} [DecidableEq ν] (q : ν) : List (Res ν) → Nat → Res (Option Nat)
+  | [], _ => .ok none
+  | .error e :: _, _ => .error e
+  | .ok n :: rest, i => if n = q then .ok (some i) else lookupFrom q rest (i + 1)
+
+/-- `homogeneous_scope::operator[](const Name&)` over the members' names in order. -/
+def HomScope.lookup {ν : Type} [DecidableEq ν] (names : List (Res ν)) (q : ν) : Res (Option Nat) := lookupFrom q names 0
+
+/-- `singleton_overload::operator[](const Type&)`: the sole declaration iff the type asked for is its type. -/
+def singletonSelect {τ : Type} [DecidableEq τ] (declType : Res τ) (t : τ) : Res Bool := declType.map (· = t)
+
+/-- `impl::Scope::operator[]` then `Overload::operator[](Type)`: the first declaration with name `q` and type `t`
+    (names and types of a general scope's members are stored: nothing can raise). -/
+def generalSelect {ν τ : Type} [DecidableEq ν] [DecidableEq τ] (members : List (ν × τ)) (q : ν) (t : τ) : Option Nat :=
+  members.findIdx? (fun m => m.1 = q ∧ m.2 = t)
+
 /-! ## `ipr::Optional<T>` (ancillary:238-253) and `util::ref<T>` (utility:63-69): a possibly null pointer, checked on `get()`. -/
 def optionalGet {α : Type} : Option α → Res α
   | some x => .ok x
